@@ -97,3 +97,69 @@ Section Sets.
         now rewrite !Rabs_pos_eq by lra.
   Qed.
 End Sets.
+
+Section SetsMain.
+  Variable pfwd pinv : R * R -> option (R * R).
+  Variable fac : cu -> R.
+  Variable geographic : bool.
+  Variable crs_units : cu.
+  Local Notation create := (create_area_def RO pfwd pinv fac geographic crs_units).
+
+  Lemma fin_area (h w : Z) (e e' : R * R * R * R) : (1 <= h)%Z -> (1 <= w)%Z -> e = e' ->
+    (if (h =? 0)%Z || (w =? 0)%Z then @Raised R else Area e (h, w)) = Area e' (h, w).
+  Proof. intros ? ? ->. destruct (Z.eqb_spec h 0); [lia|]. destruct (Z.eqb_spec w 0); [lia|]. reflexivity. Qed.
+  Lemma Reqb_false a b : a <> b -> Reqb a b = false.
+  Proof. unfold Reqb. destruct (Req_EM_T a b); congruence. Qed.
+
+  Ltac prep := unfold create_area_def, describe, g_center, g_radius, g_res, g_ul, sc in *; cbn [fst snd] in *;
+    cbn [a_width a_height a_extent a_shape a_ul a_center a_resolution a_radius a_units bind].
+  Ltac pts Hu := repeat rewrite (conv_point pfwd pinv fac geographic crs_units Nextent _ _ _ _ _ _ _ Hu (or_intror eq_refl));
+                 repeat rewrite (conv_point pfwd pinv fac geographic crs_units Nul _ _ _ _ _ _ _ Hu (or_introl eq_refl)).
+  Ltac dist Hu := repeat rewrite (conv_dist pfwd pinv fac geographic crs_units Nradius _ _ _ _ _ _ _ Hu (or_introl eq_refl)) by assumption;
+                  repeat rewrite (conv_dist pfwd pinv fac geographic crs_units Nresolution _ _ _ _ _ _ _ Hu (or_intror eq_refl)) by assumption.
+  Ltac user_shape := rewrite round_shape_R; cbn [fst snd]; rewrite !round_dim_exact.
+  Lemma convert_none name u center : convert_units RO pfwd pinv fac geographic crs_units None name u center = Ok None.
+  Proof. reflexivity. Qed.
+  Ltac rdc := cbn [bind fst snd validate2 validate4 validate_shape sub add mul div ofZ eqb RO zeroT twoT strip].
+  Ltac go Hu := repeat (progress (try rewrite !convert_none; try dist Hu; rdc)).
+  Ltac fld := first [ field; lra | field; split; lra | lra ].
+  Ltac nz g := repeat (rewrite Reqb_false by (cbn; lra)); cbn [orb].
+  Ltac derived_shape g :=
+    match goal with |- context[round_shape RO (?a, ?b)] =>
+      replace a with (IZR (gh g)) by fld; replace b with (IZR (gw g)) by fld end;
+    rewrite round_shape_R; cbn [fst snd]; rewrite !round_dim_exact.
+  Ltac fin g := apply fin_area; [assumption|assumption|unfold g_ext; repeat f_equal; fld].
+
+  Theorem param_sets_agree d g attr units c s :
+    wf_grid g -> unit_ok fac geographic crs_units (eff_units crs_units attr units) c s ->
+    (uses_center d = true -> round_poles RO pfwd pinv (g_center g) (cu_eqb c Cdeg) = Ok (g_center g)) ->
+    create (describe d g s attr units) = Area (g_ext g) (gh g, gw g).
+  Proof.
+    intros (Hx & Hy & Hw & Hh) Hu Hc.
+    assert (HW : 0 < IZR (gw g)) by (apply (IZR_lt 0); lia).
+    assert (HH : 0 < IZR (gh g)) by (apply (IZR_lt 0); lia).
+    assert (0 < (gx1 g - gx0 g) / 2) by lra. assert (0 < (gy1 g - gy0 g) / 2) by lra.
+    assert (0 < (gx1 g - gx0 g) / IZR (gw g)) by (apply Rdiv_lt_0_compat; lra).
+    assert (0 < (gy1 g - gy0 g) / IZR (gh g)) by (apply Rdiv_lt_0_compat; lra).
+    destruct d; cbn [uses_center] in Hc; try specialize (Hc eq_refl).
+    - (* extent + shape *)
+      prep. pts Hu. user_shape. go Hu. fin g.
+    - (* centre + radius + shape *)
+      prep. rewrite (conv_center pfwd pinv fac geographic crs_units _ _ _ _ _ _ _ Hu Hc). user_shape. go Hu.
+      unfold extrapolate. go Hu. fin g.
+    - (* centre + resolution + shape *)
+      prep. rewrite (conv_center pfwd pinv fac geographic crs_units _ _ _ _ _ _ _ Hu Hc). user_shape. go Hu.
+      unfold extrapolate. go Hu. fin g.
+    - (* upper-left + resolution + shape *)
+      prep. pts Hu. user_shape. go Hu. unfold extrapolate. go Hu. fin g.
+    - (* centre + radius + resolution *)
+      prep. rewrite (conv_center pfwd pinv fac geographic crs_units _ _ _ _ _ _ _ Hu Hc). go Hu.
+      unfold extrapolate. go Hu. nz g. derived_shape g. go Hu. fin g.
+    - (* extent + resolution *)
+      prep. pts Hu. go Hu. unfold extrapolate. go Hu. nz g. derived_shape g. go Hu.
+      match goal with |- context[allclose4 RO ?e ?n] => replace n with e by (repeat f_equal; fld) end.
+      rewrite allclose4_refl. go Hu. fin g.
+    - (* extent + width / height *)
+      prep. pts Hu. go Hu. user_shape. go Hu. fin g.
+  Qed.
+End SetsMain.
